@@ -10,6 +10,8 @@ import time
 
 import z3
 
+from . import watchdog
+
 from . import real
 
 Fr = fractions.Fraction
@@ -90,7 +92,8 @@ class Explorer:
         s.set("timeout", self.timeout_ms)
         s.add(*self.ctx.facts(), *self.extra, *conds)
         t0 = time.time()
-        r = s.check()
+        with watchdog.watch(self.timeout_ms, "path feasibility"):
+            r = s.check()
         self.solver_s += time.time() - t0
         self.queries += 1
         STATS["feasibility_queries"] += 1
